@@ -26,10 +26,7 @@ func (x *Exec) contractOf(fn *ssa.Function) *Contract {
 
 // frameEnv builds the spec environment of a frame at the current state.
 func (x *Exec) frameEnv(st *State, fr *Frame) *cenv {
-	env := &cenv{x: x, st: st, old: x.entry, names: fr.names, oldNames: x.entryNames, pkg: fr.fn.Pkg}
-	if env.pkg == nil && fr.fn.Parent() != nil {
-		env.pkg = fr.fn.Parent().Pkg
-	}
+	env := &cenv{x: x, st: st, old: x.entry, names: fr.names, oldNames: x.entryNames, pkg: pkgOf(fr.fn)}
 	if !fr.isTop {
 		// inlined callee: old() still refers to the entry of the verified function
 		env.oldNames = fr.names
